@@ -30,6 +30,9 @@ var verifC06Pairs = [][2]string{
 	{"(@a, @b) < (@b, @c)", "@a < @b or (@a = @b and @b < @c)"},
 	{"(@a, @b) >= (@c, @a)", "@a > @c or (@a = @c and @b >= @a)"},
 	{"(@a, @b) <> (@b, @c)", "@a <> @b or @b <> @c"},
+	{"(@a, @b) between (@b, @c) and (@c, @a)", "(@a, @b) >= (@b, @c) and (@a, @b) <= (@c, @a)"},
+	{"(@a, @b) not between (@b, @c) and (@c, @a)", "not ((@a, @b) >= (@b, @c) and (@a, @b) <= (@c, @a))"},
+	{"not (@a between @b and @c)", "not (@b <= @a and @a <= @c)"},
 	{"(@a, @b, @c) <= (@b, @b, @a)", "@a < @b or (@a = @b and (@b < @b or (@b = @b and @c <= @a)))"},
 	// lists that come from subqueries: s holds @b and @c, e holds no row (ANY over nothing is FALSE, ALL TRUE)
 	{"@a in (select v from s)", "@a = @b or @a = @c"},
